@@ -1067,6 +1067,87 @@ Section Flat.
   Qed.
 
 
+  (** ... with a final item without "=" (the default, whatever "#default=" said before) *)
+  Lemma split_switch_bare a :
+    forallb (fun i => negb (is_code 61 i)) a = true -> Expand.split_switch a = None.
+  Proof.
+    induction a as [|i a IH]; intros H; [reflexivity|].
+    cbn in H. apply andb_true_iff in H. destruct H as [Hi Ha]. apply negb_true_iff in Hi.
+    cbn [Expand.split_switch]. rewrite Hi, (IH Ha). destruct (is_code 60 i); reflexivity.
+  Qed.
+
+  Lemma switch_loop_trailing stk1 val last : FlatCall.bare_ok last = true -> forall cases d f,
+    forallb case_ok cases = true ->
+    (cases_size cases + length last + 3 < f)%nat ->
+    switch_loop f stk1 val (map mkcase cases ++ [last]) false false d None
+    = Some (FlatCall.switch_trailing_result val cases last).
+  Proof.
+    intros Hl. unfold FlatCall.bare_ok in Hl. apply andb_true_iff in Hl. destruct Hl as [Hlp Hl61].
+    induction cases as [|[k v] cases IH]; intros d f Hok Hf.
+    - destruct f as [|f]; [lia|]. rewrite switch_loop_S. cbn [map app].
+      rewrite (split_switch_bare last Hl61). cbv beta iota zeta.
+      rewrite (expand_recurse_plain pfnames lib opts last Hlp) by (cbn in Hf; lia).
+      cbn [option_map]. destruct f as [|f]; [cbn in Hf; lia|]. rewrite switch_loop_S. reflexivity.
+    - destruct f as [|f]; [lia|]. rewrite switch_loop_S. cbn [map app].
+      cbn in Hok. apply andb_true_iff in Hok. destruct Hok as [Hkv Hrest].
+      unfold FlatCall.case_ok in Hkv. cbn [fst snd] in Hkv.
+      apply andb_true_iff in Hkv. destruct Hkv as [Hkv Hv]. apply andb_true_iff in Hkv. destruct Hkv as [Hk Hne].
+      unfold FlatCall.mkcase at 1. cbn [fst snd].
+      rewrite (split_switch_case k v Hne).
+      cbn [negb andb]. cbv beta iota zeta.
+      unfold cases_size in Hf. cbn [fold_right fst snd] in Hf. fold (cases_size cases) in Hf.
+      rewrite (expand_recurse_plain pfnames lib opts k Hk) by lia.
+      cbn [option_map]. rewrite orb_false_r.
+      cbn [FlatCall.switch_trailing_result].
+      destruct (mw_equal (codes (strip_i k)) (codes val)) eqn:Em.
+      + rewrite (expand_recurse_plain pfnames lib opts v Hv) by lia. reflexivity.
+      + apply IH; [exact Hrest | lia].
+  Qed.
+
+  Theorem switch_trailing stk ea x cases last :
+    (length stk < 100)%nat -> plain x = true -> forallb case_ok cases = true -> FlatCall.bare_ok last = true ->
+    o_parserfns opts = true ->
+    exists F, forall fuel, (F <= fuel)%nat ->
+      expand_T fuel stk ea ((switch_head ++ x) :: map mkcase cases ++ [last])
+      = Some (add_newline (FlatCall.switch_trailing_result (strip_i x) cases last)).
+  Proof.
+    intros Hdepth Hc Hm Hlast Hpf.
+    exists (length x + cases_size cases + length last + 30)%nat.
+    intros fuel Hf. destruct fuel as [|f]; [lia|]. destruct f as [|f']; [lia|].
+    rewrite expand_T_S. replace (Nat.leb 100 (length stk)) with false by (symmetry; apply Nat.leb_gt; exact Hdepth).
+    assert (Hp : plain (switch_head ++ x) = true) by (rewrite plain_app, Hc; reflexivity).
+    rewrite (expand_recurse_plain pfnames lib opts _ Hp) by (rewrite app_length; cbn; lia).
+    cbv beta iota zeta. rewrite strip_switch_head.
+    assert (Hcodes : codes (switch_head ++ rstrip_i x)
+                     = 35 :: 115 :: 119 :: 105 :: 116 :: 99 :: 104 :: 58 :: codes (rstrip_i x)) by reflexivity.
+    rewrite Hcodes. cbn [index_of].
+    replace (35 =? 58) with false by reflexivity. replace (115 =? 58) with false by reflexivity.
+    replace (119 =? 58) with false by reflexivity. replace (105 =? 58) with false by reflexivity.
+    replace (116 =? 58) with false by reflexivity. replace (99 =? 58) with false by reflexivity.
+    replace (104 =? 58) with false by reflexivity. replace (58 =? 58) with true by reflexivity.
+    cbv beta iota. cbn [firstn].
+    assert (Hcanon : Expand.canon_pf pfnames [35; 115; 119; 105; 116; 99; 104] = [35; 115; 119; 105; 116; 99; 104]).
+    { unfold Expand.canon_pf. cbn [collapse_ws_us is_space N.eqb orb]. destruct (in_names _ pfnames); reflexivity. }
+    rewrite Hcanon.
+    assert (Hcl : Expand.classify_pf pfnames [35; 115; 119; 105; 116; 99; 104] = PfSwitch) by reflexivity. rewrite Hcl.
+    cbn [skipn FlatCall.switch_head chars s_switch map app].
+    rewrite expand_pf_S. rewrite Hpf. cbn [negb].
+    set (c0 := lstrip_i (rstrip_i x)).
+    assert (Hc0 : plain c0 = true) by (apply plain_lstrip, plain_rstrip; exact Hc).
+    assert (Lc0 : (length c0 <= length x)%nat).
+    { unfold c0, rstrip_i. assert (Ll : forall y, (length (lstrip_i y) <= length y)%nat).
+      { induction y as [|z y IHy]; [cbn; lia|]. cbn [lstrip_i]. destruct (sp_item z); cbn; lia. }
+      etransitivity; [apply Ll|]. rewrite rev_length. etransitivity; [apply Ll|]. rewrite rev_length. lia. }
+    cbv beta iota zeta.
+    rewrite (expand_recurse_plain pfnames lib opts c0 Hc0) by lia.
+    cbn [option_map].
+    assert (Hstrip : strip_i c0 = strip_i x).
+    { unfold c0, strip_i. rewrite lstrip_idem, lstrip_rstrip_comm, rstrip_idem. reflexivity. }
+    rewrite Hstrip.
+    rewrite (switch_loop_trailing _ (strip_i x) last Hlast cases None f' Hm) by lia.
+    reflexivity.
+  Qed.
+
   (** Calls inside the arguments of a call (C04: arguments are expanded in the caller's frame). *)
   Lemma existsb_rev {A} (f : A -> bool) l : existsb f (rev l) = existsb f l.
   Proof.
